@@ -63,6 +63,13 @@ def gen_smib(rng):
              t_open=float(np.round(rng.uniform(0.1, 0.6), 3)), t_close=None, tf=3.0, f=60.0)
     if rng.random() < 0.6:
         p["t_close"] = float(np.round(p["t_open"] + rng.uniform(0.08, 0.4), 3))
+    # machine data on the machine's own MVA base (system base 100 MVA): M, D, xd1 below are machine-base numbers
+    p["Sn"] = float(rng.choice([100.0, 50.0, 250.0, 400.0]))
+    kb = p["Sn"] / 100.0
+    if p["M"] * kb < 2.0 or p["P"] > 1.1 * kb:
+        # keep the scenario inside the range the accuracy thresholds were derived for: system-base inertia >= 2 s,
+        # machine not loaded beyond 110 % of its own rating
+        p["Sn"] = 100.0
     return p
 
 
@@ -78,7 +85,7 @@ def build_smib(p, rc):
     ss.add("Slack", dict(idx="INF", bus=3, Vn=230.0, Sn=100.0, v0=p["vinf"], a0=0.0))
     if p["pload"] > 0:
         ss.add("PQ", dict(idx="LD", bus=2, Vn=230.0, p0=p["pload"], q0=0.1 * p["pload"]))
-    ss.add("GENCLS", dict(idx="GEN", bus=1, gen="G1", Sn=100.0, Vn=230.0, fn=p["f"], M=p["M"], D=p["D"], xd1=p["xd1"], ra=0.0))
+    ss.add("GENCLS", dict(idx="GEN", bus=1, gen="G1", Sn=p.get("Sn", 100.0), Vn=230.0, fn=p["f"], M=p["M"], D=p["D"], xd1=p["xd1"], ra=0.0))
     ss.add("Toggle", dict(model="Line", dev="L2", t=p["t_open"]))
     if p["t_close"] is not None:
         ss.add("Toggle", dict(model="Line", dev="L2", t=p["t_close"]))
@@ -96,10 +103,13 @@ def reference_swing(p, V1, V2, V3, tgrid):
     yT = y_line(0.0, p["xT"])
     y1 = y_line(p["rL"], p["xL1"])
     y2 = y_line(p["rL"], p["xL2"])
-    yd = 1.0 / complex(0.0, p["xd1"])
+    # textbook change of base: inertia and damping scale with Sn/Sb, reactances with Sb/Sn
+    kb = p.get("Sn", 100.0) / 100.0
+    xd1, M_sys, D_sys = p["xd1"] / kb, p["M"] * kb, p["D"] * kb
+    yd = 1.0 / complex(0.0, xd1)
     # generator current from the power-flow solution
     I1 = yT * (V1 - V2)
-    E = V1 + 1j * p["xd1"] * I1
+    E = V1 + 1j * xd1 * I1
     delta0 = float(np.angle(E))
     Emag = float(abs(E))
     # constant-impedance load at bus 2 from its power-flow power
@@ -141,7 +151,7 @@ def reference_swing(p, V1, V2, V3, tgrid):
         a, b = breaks[k], breaks[k + 1]
         pe = modes[k]
         tg = [t for t in tgrid if a < t <= b + 1e-12]
-        sol = solve_ivp(lambda t, y: [w * (y[1] - 1.0), (Pm - pe(y[0]) - p["D"] * (y[1] - 1.0)) / p["M"]], (a, b), y0, method="DOP853",
+        sol = solve_ivp(lambda t, y: [w * (y[1] - 1.0), (Pm - pe(y[0]) - D_sys * (y[1] - 1.0)) / M_sys], (a, b), y0, method="DOP853",
                         rtol=1e-11, atol=1e-12, t_eval=sorted(set(tg + [b])))
         for t, col in zip(sol.t, sol.y.T):
             if t > T[-1]:
@@ -212,8 +222,8 @@ def run_smib(spec, res):
     lo, hi = (1.6, 2.4) if method == "trapezoid" else (0.75, 1.3)
     res.count("order_estimates", 2)
     res.maxobs("max_finest_error_over_amplitude", errs[-1] / max(amp, 1e-12))
-    tag = "SMIB M=%.2f D=%.2f xd'=%.3f xT=%.3f xL=%.3f/%.3f P=%.2f open %.3f close %s (%s)" % (
-        p["M"], p["D"], p["xd1"], p["xT"], p["xL1"], p["xL2"], p["P"], p["t_open"], p["t_close"], method)
+    tag = "SMIB Sn=%g M=%.2f D=%.2f xd'=%.3f xT=%.3f xL=%.3f/%.3f P=%.2f open %.3f close %s (%s)" % (
+        p.get("Sn", 100.0), p["M"], p["D"], p["xd1"], p["xT"], p["xL1"], p["xL2"], p["P"], p["t_open"], p["t_close"], method)
     if amp > 1e-3:
         floor = 1e-7        # reference accuracy / ANDES tolerance floor
         # the coarsest pair may still be pre-asymptotic (omega_swing * h ~ 0.5): the order is decided on the finer pairs,
@@ -221,15 +231,17 @@ def run_smib(spec, res):
         # ANDES resolves a switching instant with 1e-4 s steps that reuse the pre-event derivative: that leaves an error
         # floor of the order of 1e-4 of the excursion which does not shrink with h; pairs close to it carry no order information
         floor = max(floor, 1e-3 * amp)
-        pairs = [(o, e2) for o, e1, e2 in zip(orders, errs, errs[1:]) if e2 > floor]
+        # with error = C h^p + F (F <= floor) the measured order of a pair stays within the band only while the finer
+        # error of the pair is above ~3.1 F: log2((4a + F) / (a + F)) >= 1.6  <=>  a >= 2.1 F
+        pairs = [(o, e2) for o, e1, e2 in zip(orders, errs, errs[1:]) if e2 > 3.2 * floor]
         if not pairs:
             res.count("order_undecided_errors_at_floor")
         fine = [o for o, _ in pairs[1:]] if method == "trapezoid" else [o for o, _ in pairs[2:]]
         if method == "trapezoid" and len(pairs) == 1:
             fine = [pairs[0][0]] if pairs[0][0] > 2.4 else []
         if fine and not all(lo <= o <= hi for o in fine):
-            res.violate("smib_order", "%s: errors vs the swing-equation reference %s give orders %s; the finer pairs must lie in [%.2f, %.2f]" % (
-                tag, ["%.3e" % e for e in errs], ["%.2f" % o for o in orders], lo, hi), method=method)
+            res.violate("smib_order", "%s: errors vs the swing-equation reference %s (swing amplitude %.3e) give orders %s; the finer pairs must lie in [%.2f, %.2f]" % (
+                tag, ["%.3e" % e for e in errs], amp, ["%.2f" % o for o in orders], lo, hi), method=method)
         if pairs and method == "trapezoid" and pairs[0][0] < 0.7:
             res.violate("smib_order", "%s: no convergence between the two coarsest steps (%s)" % (tag, ["%.3e" % e for e in errs]), method=method)
         if method == "trapezoid":
